@@ -40,6 +40,24 @@ def compress(data, typesize=8, clevel=9, shuffle=SHUFFLE, cname='blosclz', **kw)
             + comp + struct.pack('<I', zlib.crc32(raw)))
 
 
+MAX_TYPESIZE = 255
+MAX_BUFFERSIZE = 2 ** 31 - 1 - 16
+
+
+def compress_ptr(address, items, typesize=8, clevel=9, shuffle=SHUFFLE, cname='blosclz', **kw):
+    """python-blosc's zero-copy entry point: `items` elements of `typesize` bytes starting at `address`"""
+    return compress(ctypes.string_at(address, int(items) * int(typesize)), typesize=typesize, clevel=clevel, shuffle=shuffle, cname=cname, **kw)
+
+
+def get_cbuffer_sizes(buf):
+    """(uncompressed bytes, compressed bytes, block size) of one frame"""
+    b = bytes(buf)
+    if b[:4] != _MAGIC:
+        raise ValueError('not a frame')
+    ncomp, nraw, _ = struct.unpack('<III', b[4:16])
+    return nraw, 16 + ncomp + 4, _blocksize or nraw
+
+
 def mini_frame(raw):
     """Tiny self-checking frame (3 + len(raw) bytes) used by exhaustive chunk-composition checks."""
     raw = bytes(raw)
